@@ -1714,6 +1714,11 @@ class Engine:
         """values read from the *initial* heap are old, well-formed values (encoding invariant);
         nothing is assumed about values that may have been stored during this execution"""
         self.p.assume(M.val_wf(v))
+        et = getattr(self.p, "elem_types", None)
+        if et and container.kind == "ref":
+            ty = et.get(container.ref.get_id())
+            if ty is not None:
+                self.assume_type(v, ty)      # element invariant declared by the harness with elems_are(list, type)
         if is_initial_read(v):
             self.p.assume(z3.Implies(z3.And(Val.is_VRef(v), container.ref < self.p.alloc0), Val.ref(v) < self.p.alloc0))
 
